@@ -1,2 +1,11 @@
-import Cctz.Model.Parse
-import Cctz.Spec.FormatSpec
+/-
+  C08 helper proofs (entry point).  The lemmas live in the `Fm*` files:
+  `FmRender`  format64 / format02d / formatOffset against the documented renderings, lengths;
+  `FmLoop`    `formatLoop` cut into named pieces, the cursor scans;
+  `FmLiteral` literal text and doubled percent signs;
+  `FmRfc`     which branch an iteration takes, symbolic evaluation of the RFC 3339 format.
+-/
+import Cctz.Proofs.FmRender
+import Cctz.Proofs.FmLoop
+import Cctz.Proofs.FmLiteral
+import Cctz.Proofs.FmRfc
